@@ -132,6 +132,10 @@ public:
   static buffergroup *get_instance();
   static void del_instance();
   void set_buffergroup(u32_t size, FILE *fin, FILE *fout, bool ispadding);
+  /*
+  wait_buffer:等待缓冲区就绪(首次访问前)
+  */
+  void wait_buffer(const u8_t id) { ctrl[id].wait_ready(); };
   u8_t *require_buffer_entry(const u8_t id);
   void run_buffer(const std::function<void(std::string, size_t)> &printload);
 };
